@@ -100,8 +100,8 @@ func checkC16(c *Check) {
 	c.Rule("R2", "E1 + E2", "with a prefix configured, Open is reachable only when the path has the prefix and the remainder is empty or starts with '/'; the prefix is normalised to \"/\" + Trim(prefix, \"/\")", 3)
 	prefix := vFieldNamed("Prefix")
 	reqPath := vFieldNamed("Path")
-	hasPrefix := edgesWhere(H, cBool(vCall("strings.HasPrefix", reqPath, prefix)), true)
-	noPrefix := edgesWhere(H, cCmp(token.EQL, prefix, vConstStr("")), true)
+	hasPrefix := edgesWhere(H, cHasPrefix(reqPath, prefix), true)
+	noPrefix := edgesWhere(H, cEmptyStr(prefix), true)
 	var rest *ssa.Slice
 	allInstrs(H, func(in ssa.Instruction) {
 		if sl, ok := in.(*ssa.Slice); ok && reqPath(sl.X) && sl.High == nil && sl.Low != nil && vLen(prefix)(sl.Low) {
@@ -149,7 +149,7 @@ func checkC16(c *Check) {
 			}
 			if f := fieldOf(strip(s.Addr)); f != nil && f.Name() == "Prefix" {
 				if vBin(token.ADD, vConstStr("/"), vCall("strings.Trim", prefix, vConstStr("/")))(s.Val) {
-					g := edgesWhere(l, cCmp(token.EQL, prefix, vConstStr("")), false)
+					g := edgesWhere(l, cEmptyStr(prefix), false)
 					if ok2, _ := guardedBy(l, g, isInstr(in)); ok2 && len(g) > 0 {
 						normOK = true
 					}
